@@ -535,6 +535,13 @@ def runProg (env : Env) : List Instr → State → List Ctx → List Obs
     let c := vals.getD (srcIdx vals.length i.back) []
     (stepOp env st c i.op).2.2 :: runProg env is (stepOp env st c i.op).1 (vals ++ [(stepOp env st c i.op).2.1])
 
+/-- the shared state and all request values after a program -/
+def endProg (env : Env) : List Instr → State → List Ctx → State × List Ctx
+  | [], st, vals => (st, vals)
+  | i :: is, st, vals =>
+    let c := vals.getD (srcIdx vals.length i.back) []
+    endProg env is (stepOp env st c i.op).1 (vals ++ [(stepOp env st c i.op).2.1])
+
 /-! ## Spec (from the property text)
 
 "Within one request, once a stage has produced a result it is reused by every later asker that
@@ -552,7 +559,11 @@ must keep the promises of that value: same result, handed back with the very req
 other effect), and none of the stage's effects — no router lookup for the route, no
 authenticator/authorizer/consumer call for the others; a value on whose way the body was consumed
 sees no further consumption. Results outside the list (no route, header
-parse error, failed negotiation, failed or anonymous authentication) promise nothing. -/
+parse error, failed negotiation, failed or anonymous authentication) promise nothing.
+
+That is the second sentence of the property. Its first sentence — the results "are those derived
+from that request alone" — constrains, within one request, every result NOT covered by a promise:
+see `fresh` / `derivedAlone` below. `specGo` judges both on every instruction of a trace. -/
 
 structure Promise where
   route : Option Res1 := none
@@ -636,15 +647,157 @@ def after (p : Promise) (op : Op) (o : Obs) : Promise :=
   { afterReset (afterStage (afterRoute p o.res1) op o.res2) op with
     consumed := p.consumed || o.effs.any isConsume }
 
-/-- the property judged on a trace (the model's or the real code's) -/
-def specGo : List Instr → List Obs → List Promise → Bool
-  | [], [], _ => true
-  | i :: is, o :: os, ps =>
-    let p := ps.getD (srcIdx ps.length i.back) {}
-    keeps p i.op o && specGo is os (ps ++ [after p i.op o])
-  | _, _, _ => false
+/-! ### "… are those derived from that request alone"
 
-def specOk (prog : List Instr) (trace : List Obs) : Bool := specGo prog trace [{}]
+The first sentence of the property: each request's matched route, path parameters, selected consumer
+and producer, negotiated format, principal, scopes and bound values "are those derived from that
+request alone". Reading, within one request's accessor sequence: whenever a stage is actually
+EVALUATED — the value it is asked on holds no promise for it — its result is the one a first
+evaluation on the request as received yields. Earlier calls of the same or of other accessors
+(failed authentications, `ResetAuth`, calls on other request values, failed negotiations, a
+`route.Authenticator` or `route.Consumer` left behind on the shared route object) leave no trace in
+it, with exactly the exceptions the property names itself:
+
+* a stage result the value holds a promise for is reused — so binding, which asks for the response
+  format, gets the promised format (negotiated from the offers of whoever asked first) and not a
+  fresh negotiation over the route's own media types;
+* "the body is consumed at most once": a consumed body stays consumed. A binding that is evaluated
+  after the body was read (possible only on a value that does not hold the first binding's result)
+  is the binding of the request with what is LEFT of its body — nothing. It is not the first
+  outcome (that one is promised to the holders of the value the first binding returned, to nobody
+  else), and the body is not replayed.
+
+The reference below is written over the stage functions `Env` only: no shared state, no context. -/
+
+/-- the request against ONE alternative (AND of its schemes, in order): a scheme that does not
+apply makes the alternative not apply; the first error ends it; the principal is the last scheme's -/
+def refAlt (env : Env) : List Bytes → Option Bytes → Bool × Option Bytes × Option Nat
+  | [], last => (true, last, none)
+  | s :: rest, _ =>
+    if !(env.authn s).applies then (false, none, none)
+    else match (env.authn s).err with
+      | some e => (true, none, some e)
+      | none => refAlt env rest (env.authn s).princ
+
+/-- the request against the alternatives (OR, in order): the first credentialed alternative that
+yields a principal wins, with ITS scopes; otherwise anonymous access (the scopes of the anonymous
+alternative named last) when some alternative allows it and no authenticator reported an error;
+otherwise the error reported last, 401 when there is none. -/
+def refAlts (env : Env) : List AuthAlt → Option Nat → Option AuthAlt → Res2 × List Bytes
+  | [], lastErr, anon =>
+    match anon, lastErr with
+    | some a, none => (.anon, a.scopes)
+    | _, _ => (.authErr (lastErr.getD 401), [])
+  | ra :: rest, lastErr, anon =>
+    if ra.anon then refAlts env rest lastErr (some ra)
+    else match refAlt env ra.schemes none with
+      | (true, some u, none) => (.princ u, ra.scopes)
+      | (_, _, e) => refAlts env rest (orElse e lastErr) anon
+
+def isAuthErr : Res2 → Bool
+  | .authErr _ => true
+  | _ => false
+
+/-- authentication, then the authorizer (if one is registered): principal/anonymous with the scopes,
+or the error code -/
+def refAuthorize (env : Env) (rc : RouteCfg) : Res2 × List Bytes :=
+  if isAuthErr (refAlts env rc.alts none none).1 then ((refAlts env rc.alts none none).1, [])
+  else if rc.hasAuthorizer then
+    match env.authz with
+    | some code => (.authErr code, [])
+    | none => refAlts env rc.alts none none
+  else refAlts env rc.alts none none
+
+/-- the consumer the request's content type selects among the route's consumers -/
+def refConsumer (env : Env) : Option Bytes :=
+  match env.parseCT with
+  | .ok p => if p.1.isEmpty then none else env.consumerFor p.1
+  | .error _ => none
+
+/-- content-type validation of a request with a body: the header's parse error; else 415 when the
+route does not consume the media type, 500 when no consumer is registered for it -/
+def refCTErrs (env : Env) : List Nat :=
+  if env.hasBody then
+    match env.parseCT with
+    | .error e => [e]
+    | .ok p => (if env.ctAllowed p.1 then [] else [415]) ++
+        (if !p.1.isEmpty && (env.consumerFor p.1).isNone then [500] else [])
+  else []
+
+/-- the format binding sees: the promised one, else the negotiation over what the route produces -/
+def refFmt (env : Env) (p : Promise) (rc : RouteCfg) : Bytes :=
+  match p.fmt with
+  | some (.fmt f) => f
+  | _ => env.neg rc.produces
+
+/-- binding evaluated on the request with `left` bytes of body unread. `none`: the reference is
+silent — a body parameter has to be read and the content type selects no consumer although it
+passed validation (an empty media type; `runtime.ContentType` never returns one). -/
+def refBind (env : Env) (p : Promise) (left : Nat) (rc : RouteCfg) : Option Res2 :=
+  if !(refCTErrs env).isEmpty then some (.bound (refCTErrs env) [])
+  else if (refFmt env p rc).isEmpty && !rc.produces.isEmpty then some (.bound [406] [])
+  else if env.bodyParam && env.hasBody && (refConsumer env).isNone then none
+  else some (.bound (env.bind left).codes (env.bind left).bound)
+
+/-- **the reference**: what an accessor yields when its stage is evaluated on the request as
+received (`left`: the bytes of its body nobody has read yet; `p`: the promises of the value asked on,
+of which only the format matters, to binding) -/
+def fresh (env : Env) (p : Promise) (left : Nat) : Op → Option Res2
+  | .routeInfo => some .na
+  | .resetAuth => some .na
+  | .contentType => some (res2OfCT env.parseCT)
+  | .responseFormat offers => some (.fmt (env.neg offers))
+  | .authorize =>
+    match env.lookup with
+    | none => some .unsecured
+    | some rc => if rc.alts.isEmpty then some .unsecured else some (refAuthorize env rc).1
+  | .bindAndValidate =>
+    match env.lookup with
+    | none => some .skipped
+    | some rc => refBind env p left rc
+
+/-- the route the router finds for this request: operation and path parameters (the identity of
+the `MatchedRoute` object is not a property of the request) -/
+def routeAlone (env : Env) (r : Res1) : Bool :=
+  match env.lookup, r with
+  | none, .notFound => true
+  | some rc, .found _ op ps => op == rc.opId && ps == rc.params
+  | _, _ => false
+
+def authenticated : Res2 → Bool
+  | .princ _ => true
+  | .anon => true
+  | _ => false
+
+/-- the scopes shown after an evaluated `Authorize` that let the request in -/
+def scopesAlone (env : Env) (op : Op) (o : Obs) : Bool :=
+  match op, env.lookup with
+  | .authorize, some rc => !authenticated o.res2 || o.view.scopes == (refAuthorize env rc).2
+  | _, _ => true
+
+/-- the clause: whatever of the operation's results is not covered by a promise is the reference's -/
+def derivedAlone (env : Env) (p : Promise) (left : Nat) (op : Op) (o : Obs) : Bool :=
+  (p.route.isSome || !hasRoutePart op || routeAlone env o.res1) &&
+  ((promised p op).isSome ||
+    ((match fresh env p left op with
+      | some r => o.res2 == r
+      | none => true) && scopesAlone env op o))
+
+/-- a consumed body stays consumed -/
+def leftAfter (left : Nat) (o : Obs) : Nat := bif o.effs.any isConsume then 0 else left
+
+/-- the property judged on a trace (the model's or the real code's) of the request whose stage
+functions are `env`; `left` = bytes of its body not consumed so far -/
+def specGo (env : Env) : List Instr → List Obs → List Promise → Nat → Bool
+  | [], [], _, _ => true
+  | i :: is, o :: os, ps, left =>
+    let p := ps.getD (srcIdx ps.length i.back) {}
+    keeps p i.op o && derivedAlone env p left i.op o &&
+      specGo env is os (ps ++ [after p i.op o]) (leftAfter left o)
+  | _, _, _, _ => false
+
+def specOk (env : Env) (bodyLen : Nat) (prog : List Instr) (trace : List Obs) : Bool :=
+  specGo env prog trace [{}] bodyLen
 
 /-- two operations ask the same stage -/
 def sameStage : Op → Op → Bool
@@ -862,18 +1015,30 @@ def hitLetters (prog : List Instr) (trace : List Obs) : String :=
     | op => if o.ret2 == .same && memoisable2 o.res2 then some (opLetter op) else none
   String.ofList (['r', 'c', 'f', 'a', 'b'].filter hits.contains)
 
+/-- the `Authorize` calls that consulted an authenticator, in order, with their results -/
+def evaluatedAuths (prog : List Instr) (trace : List Obs) : List Res2 :=
+  (prog.zip trace).filterMap fun (i, o) =>
+    if i.op == .authorize && o.effs.any isAuthEff then some o.res2 else none
+
+def isPrinc : Res2 → Bool
+  | .princ _ => true
+  | _ => false
+
 def tagA (prog : List Instr) (trace : List Obs) : String :=
   let h := hitLetters prog trace
   let stale := prog.any (·.back != 0)
+  let earlier := (evaluatedAuths prog trace).dropLast
   -- one qualifier, the most specific one that applies
   let q :=
     if (trace.filter (·.effs.any isConsume)).length > 1 then "+reconsume"
+    else if earlier.any isAuthErr then "+refail"      -- authenticated again after a failure
+    else if earlier.any isPrinc then "+reauth"        -- … after a success (ResetAuth or a stale value between)
     else if stale then "+stale"
     else if trace.any (·.res2 == .anon) then "+anon"
     else if prog.any (·.op == .resetAuth) then "+reset"
     else if trace.any (fun o => match o.res2 with | .authErr _ | .ctErr _ => true | .fmt f => f.isEmpty | _ => false) then "+fail"
     else ""
-  if h.isEmpty && !stale then "~A:nohit" else s!"A:hit={if h.isEmpty then "-" else h}{q}"
+  if h.isEmpty && !stale && earlier.isEmpty then "~A:nohit" else s!"A:hit={if h.isEmpty then "-" else h}{q}"
 
 def runA (ins outs : List String) : Verdict :=
   match ins, outs with
@@ -902,7 +1067,7 @@ def runA (ins outs : List String) : Verdict :=
             bodyParam := bindFull.2,
             bind := fun n => if n == body.length then bindFull.1 else bindDrained.1 }
         let m := runProg env prog ⟨[], body.length⟩ [[]]
-        { agree := m == realObs, specOk := specOk prog realObs, tag := tagA prog m,
+        { agree := m == realObs, specOk := specOk env body.length prog realObs, tag := tagA prog m,
           model := " ".intercalate (m.map encObs) }
       | _, _, _ => .bad "A program/authn/observations"
     | _, _, _, _, _, _, _, _, _, _, _, _ => .bad "A fields"
